@@ -18,7 +18,7 @@ Section PtInd.
   Hypothesis HSeq : forall ms subs, Forall P subs -> P (Seq ms subs).
   Hypothesis HRep : forall ms c b, P b -> P (Rep ms c b).
   Hypothesis HFor : forall ms i a b s body, P body -> P (For ms i a b s body).
-  Hypothesis HMap : forall pm mml b, P b -> P (Map pm mml b).
+  Hypothesis HMap : forall pm mml cs b, P b -> P (Map pm mml cs b).
   Hypothesis HRev : forall b, P b -> P (Rev b).
   Hypothesis HSingle : forall b, P b -> P (Single b).
   Hypothesis HPass : forall b, P b -> P (Pass b).
@@ -32,7 +32,7 @@ Section PtInd.
     | Seq ms subs => HSeq ms subs (go subs)
     | Rep ms c b => HRep ms c b (pt_ind' b)
     | For ms i a b s body => HFor ms i a b s body (pt_ind' body)
-    | Map pm mml b => HMap pm mml b (pt_ind' b)
+    | Map pm mml cs b => HMap pm mml cs b (pt_ind' b)
     | Rev b => HRev b (pt_ind' b)
     | Single b => HSingle b (pt_ind' b)
     | Pass b => HPass b (pt_ind' b)
@@ -313,7 +313,7 @@ Theorem create_program_windows p en mm prog :
   create_program p en mm = Program prog ->
   plays p en = true /\ ldur prog = tdur p en /\ Permutation (loop_windows prog) (denote p en mm).
 Proof.
-  unfold create_program. destruct (valid p en mm); [|discriminate].
+  unfold create_program. destruct (check p en mm); [discriminate|].
   pose proof (build_ok p en mm fresh) as H. apply fresh_result in H. unfold to_program.
   destruct (plays p en).
   - destruct H as (c & cs & E & _ & Hd & Hw). rewrite E. rewrite <- E. intro Hp. injection Hp as <-.
@@ -323,7 +323,7 @@ Proof.
 Qed.
 
 Theorem create_program_none p en mm :
-  valid p en mm = true -> (create_program p en mm = NoProgram <-> plays p en = false).
+  check p en mm = None -> (create_program p en mm = NoProgram <-> plays p en = false).
 Proof.
   intro Hv. unfold create_program. rewrite Hv.
   pose proof (build_ok p en mm fresh) as H. apply fresh_result in H. unfold to_program.
